@@ -31,6 +31,9 @@ type epollevent struct {
 
 // EpollCreate implements epoll_create1.
 func EpollCreate(flag int) (fd int, err error) {
+	if e := verifFault(vfltEpollCreate, 0); e != 0 {
+		return -1, e
+	}
 	var r0 uintptr
 	r0, _, err = syscall.RawSyscall(syscall.SYS_EPOLL_CREATE1, uintptr(flag), 0, 0)
 	if err == syscall.Errno(0) {
@@ -41,6 +44,9 @@ func EpollCreate(flag int) (fd int, err error) {
 
 // EpollCtl implements epoll_ctl.
 func EpollCtl(epfd, op, fd int, event *epollevent) (err error) {
+	if e := verifFault(vfltEpollCtlAdd+op-syscall.EPOLL_CTL_ADD, fd); e != 0 {
+		return e
+	}
 	_, _, err = syscall.RawSyscall6(syscall.SYS_EPOLL_CTL, uintptr(epfd), uintptr(op), uintptr(fd), uintptr(unsafe.Pointer(event)), 0, 0)
 	if err == syscall.Errno(0) {
 		err = nil
